@@ -68,6 +68,31 @@ def checkC12 (toks : List String) (res : String) : Option Verdict :=
       | .ok v => showNum (L, (convert a v).2)
       | _ => "UB"
     some { model := m, spec := some (want == res), branch := "asg/" ++ toks[1]! ++ (if want == "UB" then "/ub" else ""), nontrivial := want != "UB" }
+  | ["asge", op, tl, tr, l, r] => do
+    -- compound assignment on scaled nests with any exponents: `a op= b` must be `a op b` (exact per C01/C02
+    -- whenever the intermediate is exact) converted back to `a`'s type, truncating toward zero (C04)
+    let op ← parseBinOp op; let L ← parseTy tl; let R ← parseTy tr; let l ← l.toInt?; let r ← r.toInt?
+    let a ← innerTy L
+    let ea : Int := match L with | .sc _ e _ => e | _ => 0
+    let eb : Int := match R with | .sc _ e _ => e | _ => 0
+    let m := showRes showNum (Layered.compound op (L, l) (R, r))
+    let p2 (e : Int) : Rat := if e ≥ 0 then (2 : Rat) ^ e.toNat else 1 / ((2 : Rat) ^ (-e).toNat)
+    let va : Rat := (l : Rat) * p2 ea; let vb : Rat := (r : Rat) * p2 eb
+    let exactV : Option Rat := match op with
+      | .add => some (va + vb) | .sub => some (va - vb) | .mul => some (va * vb)
+      | .div => if r == 0 then none else some (((l.tdiv r : Int) : Rat) * p2 (ea - eb))
+      | .mod => if r == 0 then none else some (((l.tmod r : Int) : Rat) * p2 ea)
+      | _ => none
+    let spec : Option Bool := do
+      let v ← exactV
+      -- the intermediate `a op b` is exact (no wrap in the promoted representation)
+      let w ← match Layered.bin op (L, l) (R, r) with | .ok w => some w | _ => none
+      let ew : Int := match w.1 with | .sc _ e _ => e | _ => 0
+      if (w.2 : Rat) * p2 ew != v then none else
+      let q : Rat := v / p2 ea
+      let t : Int := if q < 0 then -((-q).floor) else q.floor
+      if a.inRange t then some (res == showNum (L, t)) else none
+    some { model := m, spec := spec, branch := "asge/" ++ toks[1]! ++ (if ea != eb then "/mixed" else "/same"), nontrivial := spec.isSome }
   | ["inc", kind, tl, l] => do
     let L ← parseTy tl; let l ← l.toInt?
     let a ← innerTy L
